@@ -689,6 +689,60 @@ def config_doc(rng, markers=True, rich=1.0):
     return ("t", d)
 
 
+VERSIONS_BAD = [("s", "1"), ("s", "1"), ("s", "1"), ("s", "3"), ("s", ""), ("s", "2.0"), ("s", " 2"), ("s", "v2"), ("i", 2), ("i", 1), ("f", fbits(2.0)), ("b", True)]
+
+
+def versioned(rng, docgen):
+    """Wrap a document generator for ONE reference graph: `version` is an ordinary top-level scalar, so a member's
+    own value must not matter unless it survives the fold (child scalars override; the flattened file carries the
+    folded value only). Call 0 is the leaf (every graph kind generates its leaf first). In the `mix` mode every member
+    gets a missing / supported / unsupported / ill-typed version independently, the leaf mostly a supported one, so
+    that chains with a stale base under a current leaf, a current base under a stale leaf, and a bad value in the
+    middle all occur at every chain position."""
+    mode = rng.choice(["plain", "plain", "mix", "mix", "leaf-fixes"])
+    n = [0]
+
+    def gen(g):
+        v = docgen(g)
+        k = n[0]
+        n[0] += 1
+        if v[0] != "t" or mode == "plain":
+            return v
+        r = g.random()
+        if mode == "leaf-fixes":
+            # every base is stale or silent, the leaf declares the supported version
+            if k == 0:
+                v[1]["version"] = ("s", "2")
+            elif r < 0.6:
+                v[1]["version"] = g.choice(VERSIONS_BAD)
+            else:
+                v[1].pop("version", None)
+            return v
+        if k == 0:
+            pick = ("s", "2") if r < 0.6 else (None if r < 0.8 else g.choice(VERSIONS_BAD))
+        else:
+            pick = None if r < 0.4 else (("s", "2") if r < 0.6 else g.choice(VERSIONS_BAD))
+        if pick is None:
+            v[1].pop("version", None)
+        else:
+            v[1]["version"] = pick
+        return v
+    gen.mode = mode
+    return gen
+
+
+def version_profile(w):
+    """Tag of the version placement in a world (for the measured input distribution)."""
+    vals = [b[1] for (_, b) in w.files.values() if b[0] == "V"] + [r[1] for r in w.rvalues.values() if r[0] == "V"]
+    vs = [v[1].get("version") for v in vals if v[0] == "t"]
+    decl = [x for x in vs if x is not None]
+    if len(vs) < 2 or not decl:
+        return None
+    if all(x == ("s", "2") for x in decl):
+        return "versions:all-supported"
+    return "versions:some-member-unsupported"
+
+
 def d25_pair():
     base = ("t", {"content": ("t", {"exclude": ("a", [("s", "p1")])})})
     child = ("t", {"content": ("t", {"exclude": ("a", [("s", RESET), ("s", RESET), ("s", "c1")])})})
@@ -734,6 +788,7 @@ def gen_world(rng, presets, docgen, kind=None):
     """Returns (world, leaf path string, tag). The world maps every path spelling that the walk from
     the leaf produces; python's join_parent is the same text operation as the model's."""
     kind = kind or rng.choice(["chain", "chain", "chain", "graph", "graph", "preset", "remote", "odd", "case"])
+    docgen = versioned(rng, docgen)
     w = World()
     w.presets = dict(presets)
     nodes = {}     # canonical path -> value (with extends set)
